@@ -31,8 +31,11 @@ CONSTANTS
   Forms,      \* subset of {"compact", "json"}
   Sizes,      \* payload size classes (bytes)
   AadSizes,   \* additional authenticated data sizes, 0 = no aad
+  PayClasses, \* payload CONTENT classes explored (subset of AllPayClasses)
+  KeyVars,    \* variants of the object's symmetric key (subset of AllKeyVars)
   Deviation   \* "none" | "aad-not-authenticated" | "reserialised-header" | "inflate-skipped"
               \* | "open-consumes-object" | "shared-entry-header" (histories and several parties: JoseHist.tla)
+              \* | "unpad-greedy" | "key-resized" (values: what the payload ends in, how a wrong key relates to the right one)
 
 VARIABLES pc, obj, form, wire, tampered, kc, result
 vars == <<pc, obj, form, wire, tampered, kc, result>>
@@ -105,22 +108,60 @@ ASSUME /\ Cardinality(AllSigAlgs) = 12 /\ Cardinality(AllKmAlgs) = 14 /\ Cardina
        /\ \A a \in AllSigAlgs : \E k \in KeyKinds : SigApplicable(a, k)
        /\ \A a \in AllKmAlgs, e \in AllEncs : \E k \in KeyKinds : KmApplicable(a, e, k)
        /\ Deviation \in {"none", "aad-not-authenticated", "reserialised-header", "inflate-skipped",
-                         "open-consumes-object", "shared-entry-header"}   \* the last two: JoseHist.tla
+                         "open-consumes-object", "shared-entry-header",   \* these two: JoseHist.tla
+                         "unpad-greedy", "key-resized"}
+
+\* ------------------------------------------------------------ value classes
+\* The property quantifies over payloads and keys, and some VALUES are special to the encodings on the way:
+\* CBC (RFC 7518 5.2.2.1) pads the plaintext with PKCS #7 (RFC 5652 6.3): v = 16 - (n mod 16) octets of value v.
+\* A payload whose own tail looks like that padding - its last octet is the v its length produces - must come
+\* back whole.  A payload is n octets of a seeded pattern whose last TailRun octets have the value TailVal:
+AllPayClasses == {"pattern", "pad1", "padrun", "allpad", "ones", "zeros"}
+PadValue(n)   == 16 - (n % 16)
+Min2(a, b)    == IF a < b THEN a ELSE b
+TailVal(c, n) == CASE c \in {"pad1", "padrun", "allpad"} -> PadValue(n)   \* what PKCS #7 would append to n octets
+                   [] c = "ones" -> 1 [] c = "zeros" -> 0 [] OTHER -> 0
+TailRun(c, n) == CASE c = "pattern" -> 0
+                   [] c = "pad1"   -> 1                              \* the last octet alone
+                   [] c = "padrun" -> Min2(n, PadValue(n))           \* a whole would-be padding
+                   [] OTHER        -> n                              \* every octet (n = 16, allpad: a block of 0x10)
+EndsLikePadding(p) == p.t = "payload" /\ TailRun(p.cls, p.n) > 0 /\ TailVal(p.cls, p.n) = PadValue(p.n)
+
+\* A "different key" need not have the same length.  For a symmetric key K of n octets (the input of dir, AxxxKW,
+\* AxxxGCMKW, HSxxx) the wrong keys that are RELATED to K: K followed by more octets (one; n more - the size a
+\* sibling algorithm takes), K followed by zero octets, a prefix of K (all but one octet; half).  Key variant "tz":
+\* the second half of K is zero octets, so that a prefix of K is K without trailing zeros.
+AllKeyVars == {"plain", "tz"}
+KeyRels    == {"ext1", "extdouble", "zeroext1", "zerodouble", "trunc1", "trunchalf"}
+\* <<octets of K kept, zero octets appended, seeded octets (the last one non-zero) appended>>
+RelForm(r, n) == CASE r = "ext1"       -> <<n, 0, 1>>  [] r = "extdouble"  -> <<n, 0, n>>
+                   [] r = "zeroext1"   -> <<n, 1, 0>>  [] r = "zerodouble" -> <<n, n, 0>>
+                   [] r = "trunc1"     -> <<n - 1, 0, 0>> [] r = "trunchalf" -> <<n \div 2, 0, 0>>
+                   [] OTHER            -> <<0, 0, 0>>
+\* RFC 2104 section 2: an HMAC key shorter than the block is padded with zeros - K and K || 0.. ARE one HMAC key
+\* (no verifier can tell them apart), so nothing is claimed about zero-extension / zero-stripping for HSxxx
+RelApplicable(o, r) == o.kind = "jws" => r \notin {"zeroext1", "zerodouble"}
+ASSUME PayClasses \subseteq AllPayClasses /\ KeyVars \subseteq AllKeyVars
+KeyChoices(o) == {"same", "other"} \cup (IF o.keykind \in OctKinds THEN {r \in KeyRels : RelApplicable(o, r)} ELSE {})
 
 \* ------------------------------------------------------------------ objects
 \* What the application asks for.  profile "acme" = the way /repo/https/acme signs a request:
 \* nonce source, embedded public JWK, JSON serialization.
 JwsObjects ==
-  { [kind |-> "jws", alg |-> a, enc |-> "", zip |-> "", keykind |-> k, size |-> n, aad |-> 0, profile |-> p] :
-      a \in SigAlgs, k \in KeyKinds, n \in Sizes, p \in {"plain", "acme"} }
+  { [kind |-> "jws", alg |-> a, enc |-> "", zip |-> "", keykind |-> k, size |-> n, aad |-> 0, profile |-> p,
+     pcls |-> c, keyvar |-> "plain"] :
+      a \in SigAlgs, k \in KeyKinds, n \in Sizes, p \in {"plain", "acme"}, c \in PayClasses }
 JweObjects ==
-  { [kind |-> "jwe", alg |-> a, enc |-> e, zip |-> z, keykind |-> k, size |-> n, aad |-> d, profile |-> "plain"] :
-      a \in KmAlgs, e \in Encs, z \in Zips, k \in KeyKinds, n \in Sizes, d \in AadSizes }
+  { [kind |-> "jwe", alg |-> a, enc |-> e, zip |-> z, keykind |-> k, size |-> n, aad |-> d, profile |-> "plain",
+     pcls |-> c, keyvar |-> kv] :
+      a \in KmAlgs, e \in Encs, z \in Zips, k \in KeyKinds, n \in Sizes, d \in AadSizes, c \in PayClasses, kv \in KeyVars }
 \* the ACME client signs with RS256, or ES256/ES384 according to the account key's curve
 Legal(o) ==
-  IF o.kind = "jws"
-  THEN SigApplicable(o.alg, o.keykind) /\ (o.profile = "acme" => o.alg \in {"RS256", "ES256", "ES384"})
-  ELSE KmApplicable(o.alg, o.enc, o.keykind)
+  /\ IF o.kind = "jws"
+     THEN SigApplicable(o.alg, o.keykind) /\ (o.profile = "acme" => o.alg \in {"RS256", "ES256", "ES384"})
+     ELSE KmApplicable(o.alg, o.enc, o.keykind)
+  /\ o.pcls # "pattern" => o.size > 0                                 \* an empty payload has no tail
+  /\ o.keyvar = "tz" => (o.kind = "jwe" /\ o.keykind \in OctKinds)     \* HMAC: see RelApplicable
 Objects == { o \in JwsObjects \cup JweObjects : Legal(o) }
 
 \* RFC 7516 7.1: the compact serialization has no place for aad (nor for unprotected members)
@@ -143,9 +184,15 @@ NonEmpty(o, fld) ==
 \* -------------------------------------------------------- constructor terms
 K1 == "k1"   \* the key the object is made for
 K2 == "k2"   \* another key of the same kind and size
-KeyOf(choice) == IF choice = "same" THEN K1 ELSE K2
+\* the atom of a related wrong key says how it relates; a prefix of a "tz" key is that key without trailing zeros
+KeyOf(o, choice) == CASE choice = "same" -> K1 [] choice = "other" -> K2
+                      [] choice \in {"trunc1", "trunchalf"} /\ o.keyvar = "tz" -> "zerostripped"
+                      [] OTHER -> choice
+\* a key is the key it is - unless the recipient cuts / zero-fills whatever it is given to the size it wants
+FitKey(k) == IF Deviation = "key-resized" /\ k \in {"ext1", "extdouble", "zeroext1", "zerodouble", "zerostripped"}
+             THEN K1 ELSE k
 
-Pay(o)  == [t |-> "payload", n |-> o.size]
+Pay(o)  == [t |-> "payload", n |-> o.size, cls |-> o.pcls]
 Aad(o)  == IF o.aad > 0 THEN [t |-> "aad", n |-> o.aad] ELSE [t |-> "absent"]
 Absent  == [t |-> "absent"]
 Bad     == [t |-> "bad"]
@@ -181,6 +228,13 @@ KeyTerm(k)          == [t |-> "key", k |-> k]
 Kdf(k, epk, id)     == [t |-> "kdf", k |-> k, epk |-> epk, id |-> id]   \* ECDH + Concat KDF, RFC 7518 4.6.2
 Zip(z, p)           == IF z = "DEF" THEN [t |-> "deflate", of |-> p] ELSE p
 Unzip(z, x)         == IF z = "DEF" /\ Deviation # "inflate-skipped" THEN x.of ELSE x
+\* what the content cipher is given and gives back: CBC pads and un-pads (exactly the padding it appended)
+Padded(enc, x)      == IF IsCbc(enc) THEN [t |-> "padded", of |-> x] ELSE x
+Unpadded(y)         == IF y.t # "padded" THEN y
+                       ELSE IF Deviation = "unpad-greedy" /\ EndsLikePadding(y.of) THEN [t |-> "shortened", of |-> y.of]
+                       ELSE y.of
+Plain(enc, z, p)    == Padded(enc, Zip(z, p))
+Recover(z, pt)      == Unzip(z, Unpadded(pt))
 AuthData(hraw, aad) == IF Deviation = "aad-not-authenticated" THEN <<hraw>> ELSE <<hraw, aad>>
 CtTerm(enc, cek, iv, pt)      == [t |-> "ct", enc |-> enc, cek |-> cek, iv |-> iv, pt |-> pt]
 TagTerm(enc, cek, iv, ad, ct) == [t |-> "tag", enc |-> enc, cek |-> cek, iv |-> iv, ad |-> ad, ct |-> ct]
@@ -204,7 +258,7 @@ MakeJwe(o) ==
                [] o.alg = "ECDH-ES" -> Kdf(K1, m.epk, m.enc)
                [] OTHER             -> [t |-> "cek"]
       iv  == [t |-> "iv"]
-      ct  == CtTerm(o.enc, cek, iv, Zip(o.zip, Pay(o)))
+      ct  == CtTerm(o.enc, cek, iv, Plain(o.enc, o.zip, Pay(o)))
   IN [protected     |-> h,
       encrypted_key |-> IF Direct(o.alg) THEN Absent ELSE Wrap(o.alg, Kek(m, K1), cek),
       iv            |-> iv,
@@ -231,7 +285,7 @@ VerifyJws(w, k) ==
 
 \* Decrypt (RFC 7516 5.2)
 RecipientCek(m, k, ek) ==
-  CASE m.alg = "dir"     -> KeyTerm(k)
+  CASE m.alg = "dir"     -> KeyTerm(FitKey(k))
     [] m.alg = "ECDH-ES" -> Kdf(k, m.epk, m.enc)
     [] OTHER ->
         IF ek.t = "wrap" /\ ek.km = m.alg /\ ek.kek = Kek(m, k) THEN ek.cek
@@ -245,7 +299,7 @@ DecryptJwe(w, k) ==
               ad  == AuthData(AuthHdr(w.protected), Get(w, "aad"))
           IN IF cek = Fail THEN Err("unwrap")
              ELSE IF w.tag = TagTerm(m.enc, cek, w.iv, ad, w.ciphertext)
-                  THEN Ok(Unzip(m.zip, w.ciphertext.pt), Get(w, "aad"))
+                  THEN Ok(Recover(m.zip, w.ciphertext.pt), Get(w, "aad"))
                   ELSE Err("crypto")
 Open(o, w, k) == IF o.kind = "jws" THEN VerifyJws(w, k) ELSE DecryptJwe(w, k)
 
@@ -253,7 +307,7 @@ Open(o, w, k) == IF o.kind = "jws" THEN VerifyJws(w, k) ELSE DecryptJwe(w, k)
 Pipeline(o, f, fld, c, choice) ==
   LET w0 == SerializeOp(o, f)
       w1 == IF fld = "none" THEN w0 ELSE TamperOp(w0, fld, c)
-  IN Open(o, w1, KeyOf(choice))
+  IN Open(o, w1, KeyOf(o, choice))
 
 \* ------------------------------------------------------------ state machine
 Init == /\ pc = "new" /\ obj \in Objects /\ form \in Forms /\ Representable(obj, form)
@@ -271,11 +325,12 @@ Tamper(fld, c) ==
 \* ParseSigned / ParseEncrypted followed by Verify / Decrypt with the same or another key
 ParseAndOpen(choice) ==
   /\ pc = "wire" /\ pc' = "done" /\ kc' = choice
-  /\ result' = Open(obj, wire, KeyOf(choice))
+  /\ choice \in KeyChoices(obj)
+  /\ result' = Open(obj, wire, KeyOf(obj, choice))
   /\ UNCHANGED <<obj, form, wire, tampered>>
 Next == \/ ProduceAndSerialize
         \/ \E fld \in JwsFields \cup JweFields, c \in HdrClasses \cup {"bits"} : Tamper(fld, c)
-        \/ \E choice \in {"same", "other"} : ParseAndOpen(choice)
+        \/ \E choice \in {"same", "other"} \cup KeyRels : ParseAndOpen(choice)
 Spec == Init /\ [][Next]_vars
 
 \* -------------------------------------------------------------- properties
